@@ -9,7 +9,8 @@ From PG Require Import Lib.Str Lib.Cmp Lib.Sort Lib.Regex Gen.Entrycmp Gen.Ignor
 Local Open Scope N_scope.
 
 (* every well-formed link file — any number of blocks, any subset and order of
-   the seven line kinds, comments, continuation abstracts — is read by the
+   the seven line kinds, comments, continuation abstracts, each block indented by
+   any run of blanks (as the manual prints its examples) — is read by the
    parser exactly as the reference reading says, in every variant of the code *)
 Theorem parse_wf_blocks :
   forall fx base dirsel lf, wf_linkfile lf = true ->
